@@ -1,10 +1,10 @@
-(* C17 proofs, collected: Erase (events never break the record stream, all configurations),
+(* C17 proofs, collected: Drop (events vanish with a call that is not recorded), Erase (events never break the record stream, all configurations),
    Read (read/diff tree theorem for plain configurations), Watch (watch decisions), More (corollaries,
    refutations of the statements that are false of the faithful model, the overlap guard). *)
 From Coq Require Import NArith ZArith List Bool Lia.
 Import ListNotations.
 Require Import UV.Gen.Consts UV.Gen.C17Consts UV.Mcount.Model UV.Mcount.Forest UV.C17.Model.
-Require Export UV.C17.Erase UV.C17.Read UV.C17.Watch UV.C17.More UV.C17.Small.
+Require Export UV.C17.Erase UV.C17.Read UV.C17.Watch UV.C17.Drop UV.C17.More UV.C17.Small.
 Local Open Scope N_scope.
 
 (* the model's payload word counts are the sizes of the structs in utils/event.h, the table order and
